@@ -26,7 +26,8 @@ abbrev NRef := Nat
 abbrev ARef := Nat
 
 inductive PyErr
-  | valueError | attackGraphException | assertionError | keyError | other
+  | valueError | attackGraphException | assertionError | keyError | lookupError | languageGraphException
+  | recursionError | nonTermination | other
   deriving Repr, DecidableEq, Inhabited
 
 /-- position of a float relative to 0.0 and 1.0 -/
@@ -134,6 +135,43 @@ def strOptInt (x : Option Int) : String := match x with | some i => toString i |
 /-- integer value of an `Optional[int]` that the code has just assigned / checked (`None` cannot occur there);
 `0` is never used: see the `isinstance(.., int)` guards in the generated code -/
 def optIntGet (x : Option Int) : Int := x.getD 0
+
+/-! ### the step-expression evaluator (`_process_step_expression`) -/
+
+/-- a model asset as the evaluator sees it (`.id`, `.type`, `.name`) -/
+structure PyAssetObj where
+  id : Int
+  type : String := ""
+  name : String := ""
+  deriving Repr, DecidableEq, Inhabited
+
+/-- a step expression of the language specification: a JSON object with the keys `type`, `name`, `subType`,
+`lhs`, `rhs`, `stepExpression`.  Reading a key that is absent gives the empty string / the expression `missing`
+(whose `type` no `case` matches) where Python raises `KeyError`. -/
+inductive PyExpr
+  | mk (type name subType : String) (lhs rhs stepExpression : Option PyExpr)
+  deriving Repr, Inhabited
+
+def PyExpr.missing : PyExpr := .mk "<KeyError>" "" "" none none none
+def PyExpr.type : PyExpr → String | .mk t _ _ _ _ _ => t
+def PyExpr.name : PyExpr → String | .mk _ n _ _ _ _ => n
+def PyExpr.subType : PyExpr → String | .mk _ _ t _ _ _ => t
+def PyExpr.lhs : PyExpr → PyExpr | .mk _ _ _ l _ _ => l.getD .missing
+def PyExpr.rhs : PyExpr → PyExpr | .mk _ _ _ _ r _ => r.getD .missing
+def PyExpr.stepExpression : PyExpr → PyExpr | .mk _ _ _ _ _ e => e.getD .missing
+
+/-- a language-graph asset, identified by its name -/
+abbrev LgAsset := String
+
+/-- what the evaluator calls on its `lang_graph` and `model` arguments: *parameters* of the translation (the
+assumed behaviour of these methods is part of the trusted base; `Py/Abs.lean` instantiates them from the
+hand-written model).  `whileFuel` bounds the unrolling of `while` loops. -/
+structure EvalEnv where
+  get_associated_assets_by_field_name : PyAssetObj → String → List PyAssetObj
+  _get_variable_for_asset_type_by_name : String → String → Except PyErr PyExpr
+  get_asset_by_name : String → Option LgAsset
+  is_subasset_of : LgAsset → LgAsset → Bool
+  whileFuel : Nat
 
 /-- truthiness of an `Optional[bool]` / `Optional[int]` -/
 def truthyOptBool (x : Option Bool) : Bool := x == some true
